@@ -22,8 +22,8 @@
 //!   refv <field> <hasher> <q.b.g.x.f.r> <trace seed> <AirDesc line> <acceptable> <public inputs> <label> <hex>
 //!       (the format of the C03 harness) the same literal bytes as a sample of the `raw` lines of the base
 //!       configurations the EXECUTABLE REFERENCE VERIFIER of Winter/Model/RefVerifier.lean is instantiated for (64-bit
-//!       field with Rp64_256 / RpJive64_256, 62-bit field with Rp62_248; AIRs with or without auxiliary segment, no
-//!       Lagrange kernel column): `Proof::from_bytes` + the real `verify` under MinConjecturedSecurity(0); output =
+//!       field with Rp64_256 / RpJive64_256, 62-bit field with Rp62_248; AIRs with or without auxiliary segment, with
+//!       or without Lagrange kernel column / GKR proof): `Proof::from_bytes` + the real `verify` under MinConjecturedSecurity(0); output =
 //!       verdict kind `ok | parse-err | err:<VerifierError kind> | panic`, compared with `refVerify` on the same
 //!       bytes (the theorem `verify_whole_safe_partial` of WinterProofs/C06.lean is about that function).  The
 //!       bytes are judged by the oracle on the `raw` line next to it; this line only ties the model to the code.
@@ -335,6 +335,7 @@ const AUX16: &str = "w=2;l=16;e=7;j=0;p=;g=S?:+^2c0k2,S?:+^2c1k4;t=2:-n0+^2c0k2,
 const AUXW: &str = "w=1;l=16;e=1;j=0;p=;g=S?:+^2c0k3;t=2:-n0+^2c0k3;a=s0.0;x=3.2.0;h=F:+c0r0,F:*c0r1,F:+*c0r0r1;u=1:-a0+c0r0,1:-a1*c0r1,1:-a2+*c0r0r1;b=s0.0=+v0r0";
 const LAG8: &str = "w=4;l=8;e=1;j=0;p=;g=S?:+*c0c1k3,S?:+c1c0,S?:+*c2c3k3,S?:+c3c2;t=2:-n0+*c0c1k3,1:-n1+c1c0,2:-n2+*c2c3k3,1:-n3+c3c2;a=s0.0,s3.7;x=2.1.1;h=Ak1:*a0+c0r0;u=2:-b0*a0+c0r0;b=s0.0=k1";
 const AUXP8: &str = "w=2;l=8;e=1;j=0;p=;g=S?:+c0k7,R;t=1:-n0+c0k7;a=s0.0;x=1.1.0;h=Ak1:*a0+c0r0;u=2:-b0*a0+c0r0;b=s0.0=k1";
+const LAGN16: &str = "w=1;l=16;e=1;j=0;p=;g=S?:+c0k7;t=1:-n0+c0k7;a=s0.0;x=2.0.1;h=Ak1:*a0+c0k3;u=2:-b0*a0+c0k3;b=s0.0=k1";
 const PER32: &str = "w=2;l=32;e=1;j=0;p=1.2.3.4|5.7;g=S?:+*c0p0p1,S1:+c1c0;t=1.4.2:-n0+*c0p0p1,1:-n1+c1c0;a=s0.0,s1.31";
 
 pub const CFGS: &[Cfg] = &[
@@ -353,6 +354,9 @@ pub const CFGS: &[Cfg] = &[
     // auxiliary segments under the hashers the reference verifier is instantiated for
     Cfg { name: "auxrp", field: FieldId::F64, hash: HashId::Rp64_256, opts: "3.2.1.2.2.3", seed: 14, desc: AUXW, lenient: false },
     Cfg { name: "aux62", field: FieldId::F62, hash: HashId::Rp62_248, opts: "2.2.0.1.4.1", seed: 15, desc: AUXP8, lenient: false },
+    // Lagrange kernel columns (GKR path of verify) under Rescue hashers: with one auxiliary random element, and with none
+    Cfg { name: "lagrp", field: FieldId::F64, hash: HashId::Rp64_256, opts: "2.4.0.1.4.3", seed: 16, desc: LAG8, lenient: false },
+    Cfg { name: "lagjv", field: FieldId::F64, hash: HashId::RpJive64_256, opts: "2.2.0.2.2.3", seed: 17, desc: LAGN16, lenient: false },
     // proofs only a non-standard prover can make
     Cfg { name: "q255", field: FieldId::F64, hash: HashId::Blake3_256, opts: "255.2.0.1.2.0", seed: 10, desc: FIB8, lenient: true },
     Cfg { name: "per32", field: FieldId::F64, hash: HashId::Blake3_192, opts: "4.2.0.1.4.7", seed: 9, desc: PER32, lenient: false },
@@ -1212,7 +1216,7 @@ fn exec_raw(t: &[&str]) -> Outcome {
 // ------------------------------------------------------------------------------------ refv (reference verifier tie)
 /// is the executable reference verifier instantiated for this base configuration
 fn refv_modelled(b: &Base) -> bool {
-    matches!(b.cfg.hash, HashId::Rp64_256 | HashId::RpJive64_256 | HashId::Rp62_248) && !b.desc.has_lagrange() && !b.cfg.lenient
+    matches!(b.cfg.hash, HashId::Rp64_256 | HashId::RpJive64_256 | HashId::Rp62_248) && !b.cfg.lenient
 }
 
 fn refv_line(label: &str, b: &Base, bytes: &[u8]) -> String {
@@ -2601,7 +2605,7 @@ impl Prop for P {
         let per_cfg = if tier == Tier::Thorough { 12_000 } else { 3_500 };
         // about 100-250 (quick) / 1000 and more (thorough) of the model-compared cases of each configuration with a Rescue hasher
         // go to the reference verifier too
-        let refv_every = if tier == Tier::Thorough { 12 } else { 48 };
+        let refv_every = if tier == Tier::Thorough { 16 } else { 84 };
         let mut g = Gen { emit, raw_budget: 200, fam: HashMap::new(), refv_every: 0, raw_seen: 0 };
         // purely hostile strings: empty, short, random, all-equal bytes
         for k in 0..64usize {
